@@ -48,6 +48,12 @@ says (read while not yet written -> read bit; volatile never; assignment -> writ
 ever cleared), so S3's `R` really is "every attribute the session read from the object before overwriting it", for any
 operation order.
 
+The save step is part of that kernel (kind 3: flush() -> `_save_updated_` from arbitrary masks: what was read stays read,
+what was written counts as read from then on, nothing stays pending), and `upd_twice` runs it end to end: one session
+updates the same object twice with a commit() in between (reads of a, n, g before the first commit, optional re-read of a
+after it); the SECOND UPDATE must still carry a term with the value read for every attribute read before the first one and
+never overwritten, and S4 / S5 hold for it over an arbitrary current row.
+
 Bounds / restructuring w.r.t. DESIGN.md:
   * the full product R x W over the six attributes is 2^11 mask states (the volatile attribute has no read bit) x
     match/no-match; it is covered by sixteen harnesses `upd_w00..upd_w15` that differ only in the fixed bits (w_a, w_f,
@@ -69,8 +75,8 @@ Bounds / restructuring w.r.t. DESIGN.md:
 Stubs: pony.orm.core.time (clock); pony.orm.core.deduplicate (dict-based interning of database values, an identity-
 preserving optimisation whose dict lookup would realise symbolic values) -> identity; Database._ast2sql runs outside the
 CrossHair tracer (its input holds column names and converter objects only).
-Outside: collections, composite keys, a second UPDATE of the same object after an intermediate flush (an auto-flush
-before a query), deletes, the "commits none of its OTHER changes" part (rides on C17; here: commit() is not called).
+Outside: collections, composite keys, more than two UPDATEs of one object / an intermediate auto-flush before a query
+(`upd_twice` uses commit()), deletes, the "commits none of its OTHER changes" part (rides on C17; here: commit() is not called).
 """
 import math, os, re
 from typing import Tuple
